@@ -17,6 +17,8 @@ package mod_doh
 import (
 	"bytes"
 	"encoding/base64"
+	"encoding/binary"
+	"errors"
 	"fmt"
 	"io"
 	"io/ioutil"
@@ -36,10 +38,51 @@ const DnsMessage = "application/dns-message"
 
 var maxPostMsgLength int64 = 8192
 
+var errIncompleteMsg = errors.New("dns message is shorter than its header announces")
+
+// checkMsgComplete verifies that buf holds every question and resource record announced
+// in its header. dns.Msg.Unpack tolerates messages that end early, which would let a
+// truncated query be forwarded.
+func checkMsgComplete(buf []byte) error {
+	if len(buf) < 12 {
+		return errIncompleteMsg
+	}
+	off := 12
+	var err error
+	for section := 0; section < 4; section++ {
+		count := int(binary.BigEndian.Uint16(buf[4+2*section:]))
+		fixed := 10 // type, class, ttl, rdlength
+		if section == 0 {
+			fixed = 4 // qtype, qclass
+		}
+		for i := 0; i < count; i++ {
+			if _, off, err = dns.UnpackDomainName(buf, off); err != nil {
+				return err
+			}
+			if off+fixed > len(buf) {
+				return errIncompleteMsg
+			}
+			off += fixed
+			if section > 0 {
+				off += int(binary.BigEndian.Uint16(buf[off-2:]))
+				if off > len(buf) {
+					return errIncompleteMsg
+				}
+			}
+		}
+	}
+	return nil
+}
+
 func unpackMsg(buf []byte) (*dns.Msg, error) {
 	m := new(dns.Msg)
-	err := m.Unpack(buf)
-	return m, err
+	if err := m.Unpack(buf); err != nil {
+		return nil, err
+	}
+	if err := checkMsgComplete(buf); err != nil {
+		return nil, err
+	}
+	return m, nil
 }
 
 func requestToMsgPost(req *bfe_http.Request) (*dns.Msg, error) {
